@@ -31,7 +31,7 @@ for l in open('/tmp/mv/%s.suite.json'%sys.argv[1]):
 b=json.load(open('/root/.vp/BASELINE.json'))['stable_pass']
 bad=[t for t in b if res.get(t)!='pass']
 print("suite_baseline_pass=%d/%d not_passing=%s"%(len(b)-len(bad),len(b),bad))
-open('/tmp/mv/%s.retry'%sys.argv[1],'w').write("\n".join(bad))
+open('/tmp/mv/%s.retry'%sys.argv[1],'w').write("".join(b+"\n" for b in bad))
 PY
 # tests that failed in the loaded full run are re-run alone (known to flake under CPU load on the unchanged tree too)
 while read -r t; do
